@@ -9,6 +9,8 @@ State: the map model and the two repair switches (`mode`).  Common commands (→
                                         elevation=(base+j)%5, layer=base+j        → ok <dump> | error
   flat <size> <b>                     → terrain of size² fresh tiles with elevation b → ok <dump> | error
   size <n>                            → `mm.map_size = n`                           → ok <dump> | error
+  reverse                             → `mm.terrain = list(reversed(mm.terrain))`     → ok <dump> | error
+  rotate <k>                          → `mm.terrain = mm.terrain[k:] + mm.terrain[:k]` → ok <dump> | error
   elevs <e0,e1,…>                     → tile k gets elevation e_k (length must match) → ok | error
   dump                                → <dump>
   push / pop                          → save / restore the manager state (depth-first exploration of histories) → ok
@@ -84,6 +86,11 @@ def stepCommon (s : St) (line : String) : Option (St × String) :=
   | ["size", n] =>
     match n.toNat? with
     | some n => some (applyMap s (setSize s.m n))
+    | none => some (s, "bad-op")
+  | ["reverse"] => some (applyMap s (setTerrain s.m s.m.tiles.reverse))
+  | ["rotate", k] =>
+    match k.toNat? with
+    | some k => some (applyMap s (setTerrain s.m (s.m.tiles.drop k ++ s.m.tiles.take k)))
     | none => some (s, "bad-op")
   | ["elevs", l] =>
     match parseIntList? l with
